@@ -50,8 +50,8 @@ def place_demo(d):
             target = PKGDIR[pkg]
         elif m:
             target = m.group(1).replace("<repo>/", "").rstrip("/")
-        if pkg == "main" and m:
-            target = m.group(1).replace("<repo>/", "").rstrip("/")
+        if pkg == "main":
+            target = m.group(1).replace("<repo>/", "").rstrip("/") if m else "."
         if target is None:
             raise SystemExit("cannot place " + f)
         if target.endswith(".go"):
@@ -60,7 +60,7 @@ def place_demo(d):
         shutil.copy(f, os.path.join(WT, target, base))
         tags = "verif" if re.search(r"^//go:build .*verif", src, re.M) else ""
         tests = re.findall(r"^func (Test\w+)\(", src, re.M)
-        runs.append((target, "^(" + "|".join(tests) + ")$" if tests else None, tags, pkg == "main"))
+        runs.append((target, "^(" + "|".join(tests) + ")$" if tests else None, tags, pkg == "main" and not base.endswith("_test.go")))
     return runs, meta
 
 
@@ -70,7 +70,7 @@ def run_demo(runs):
         if is_main:
             rc, o = sh("go run %s ." % ("-tags " + tags if tags else ""), os.path.join(WT, target))
         elif pat:
-            rc, o = sh("go test -vet=off -count=1 %s -run '%s' ." % ("-tags " + tags if tags else "", pat), os.path.join(WT, target))
+            rc, o = sh("go test -vet=off -count=1 -timeout 20m %s -run '%s' ." % ("-tags " + tags if tags else "", pat), os.path.join(WT, target))
         else:
             continue
         ok = ok and rc == 0
